@@ -1196,8 +1196,19 @@ Proof. induction cfgs as [|c cs IH]; intros st H; [exact H|]. apply IH, cm_commi
 (* a rejected candidate changes nothing; an accepted one is published as a whole *)
 Lemma cm_commit_cases st cfg :
   (validate_strict cfg <> VOk /\ cm_commit st cfg = st) \/
-  (validate_strict cfg = VOk /\ running (cm_commit st cfg) = cfg /\ snap (cm_commit st cfg) = build cfg).
+  (validate_strict cfg = VOk /\ running (cm_commit st cfg) = cfg /\ snap (cm_commit st cfg) = build cfg /\
+   applied (cm_commit st cfg) = S (applied st)).
 Proof. unfold cm_commit. destruct (validate_strict cfg) eqn:V; [right; auto|left; split; [discriminate|reflexivity]..]. Qed.
+
+(* handlers are applied for accepted candidates only: after any sequence of candidates, the number of candidates whose
+   handlers ran is the number of accepted ones *)
+Lemma cm_applied_count cfgs : forall st,
+  applied (fold_left cm_commit cfgs st) =
+  (applied st + length (filter (fun cfg => match validate_strict cfg with VOk => true | _ => false end) cfgs))%nat.
+Proof.
+  induction cfgs as [|c cs IH]; intros st; cbn [fold_left filter length]; [lia|].
+  rewrite IH. unfold cm_commit. destruct (validate_strict c); cbn [applied length]; lia.
+Qed.
 
 (* in a published state every (S-VLAN, selector) key has at most one claimant, so the answer does not depend on the
    first-wins order at all: a covering exact claim IS the answer, a covering wildcard claim is the answer when no
